@@ -8,10 +8,9 @@ import sys
 VERIF = os.path.dirname(os.path.dirname(os.path.abspath(__file__)))
 sys.path.insert(0, VERIF)
 
-NA = {
-    'C18': 'machine-checked proof cannot apply: a Lean model is a total function and reproducible by construction; '
-           'dependence on heap contents, ASLR or message timing cannot be expressed in it (DESIGN.md section 7)',
-}
+# C18 was listed here until round 4 ("a Lean model is a total function and reproducible by construction"); it is now a
+# PARTIAL claim (checks/c18.py): the mechanisms that are logic are proved and tied, the runtime clause is only exercised.
+NA = {}
 PENDING = 'check not built yet in this round (planned, DESIGN.md section 6/10); nothing is claimed for it'
 
 # checks that exist but are being adapted (not claimed until green on the unchanged tree again)
@@ -48,7 +47,7 @@ def main():
                 'text': getattr(spec, 'LEVEL_TEXT', spec.EXPLANATION),
                 'design_ref': 'DESIGN.md section 6, ' + pid,
             },
-            'level_note': 'Trusted: Lean 4.33 kernel, axioms propext/Classical.choice/Quot.sound only, '
+            'level_note': getattr(spec, 'LEVEL_NOTE_PREFIX', '') + 'Trusted: Lean 4.33 kernel, axioms propext/Classical.choice/Quot.sound only, '
                           'tools/translate.py, the C harness + compiled Lean driver used for the correspondence, '
                           'gcc/glibc. Modelled, not verified: ' + '; '.join(spec.ASSUMPTIONS),
             'technique': getattr(spec, 'TECHNIQUE', 'Lean 4 theorems over an executable model; model tied to /repo by '
